@@ -794,6 +794,20 @@ def case_annot(ctx, inp):
     anns = []
     for step in inp["steps"]:
         a = _ann_real(step["ann"])
+        if step["op"] == "diamond":
+            # d -> (d*2 [annL], d*3 [annR]) -> sum [ann]: `d` has two dependents, so optimize_blockwise needs a second
+            # pass to fuse it — _fuse_annotations is applied to the OUTPUT of an earlier fusion
+            aL, aR = _ann_real(step["annL"]), _ann_real(step["annR"])
+            with dask.annotate(**aL) if aL else _nullctx():
+                left = d * 2
+            with dask.annotate(**aR) if aR else _nullctx():
+                right = d * 3
+            with dask.annotate(**a) if a else _nullctx():
+                d = left + right
+            exp = exp * 2 + exp * 3
+            anns.append(a)
+            ctx.branch("annotated-diamond")
+            continue
         with dask.annotate(**a) if a else _nullctx():
             if step["op"] == "neg":
                 d, exp = -d, -exp
@@ -986,6 +1000,22 @@ def generate(ctx):
             # only a non-fusable key, equal or different between neighbours
             steps = [{"op": s["op"], "ann": [["foo", ["other", rng.randint(0, 1)]]] if rng.random() < 0.8 else []} for s in steps]
         yield "annot", {"n": n, "chunks": [U.rand_comp(rng, n)], "steps": steps, "fuse": rng.random() < 0.85}
+    # diamonds: a layer with two dependents is fused in a SECOND pass, i.e. with the already fused annotations of the first
+    # (half of them with worker sets drawn from few workers, so that the first fusion often leaves the empty intersection)
+    for _ in range(ctx.n(40, 400)):
+        n = rng.randint(1, 5)
+
+        def wann():
+            if rng.random() < 0.5:
+                return gen_ann(rng, rich=False)
+            a = [["workers", ["set", sorted(rng.sample(range(3), rng.randint(1, 2)))]]]
+            if rng.random() < 0.3:
+                a.append(["retries", ["int", rng.randint(0, 3)]])
+            return a
+        steps = [{"op": rng.choice(["neg", "inc"]), "ann": wann()} for _ in range(rng.randint(0, 2))]
+        steps.append({"op": "diamond", "ann": wann(), "annL": wann(), "annR": wann()})
+        steps += [{"op": rng.choice(["neg", "dbl"]), "ann": wann()} for _ in range(rng.randint(0, 1))]
+        yield "annot", {"n": n, "chunks": [U.rand_comp(rng, n)], "steps": steps, "fuse": True}
     # function level: the rewrite_blockwise calls of optimize_blockwise for sibling-contraction programs and general stacks
     for _ in range(ctx.n(100, 1200)):
         yield "rewrite", {"prog": gen_siblings(rng)}
